@@ -68,6 +68,9 @@ func FlowMod() *Mod[flow.Rule] {
 	m.SetID = func(t *flow.Rule, id string) { t.ID = id }
 	m.Clone = func(t *flow.Rule) *flow.Rule { c := *t; return &c }
 	m.NoNaN = func(t *flow.Rule) bool { return !math.IsNaN(t.Threshold) }
+	m.StatKey = func(t *flow.Rule) string {
+		return fmt.Sprint(t.Resource, "|", t.RelationStrategy, "|", t.RefResource, "|", t.StatIntervalInMs)
+	}
 	m.Valid = func(t *flow.Rule) bool {
 		if t.Resource == "" || t.Threshold < 0 || t.TokenCalculateStrategy < 0 || t.ControlBehavior < 0 {
 			return false
@@ -314,6 +317,9 @@ func HotMod() *Mod[hotspot.Rule] {
 		return &c
 	}
 	m.NoNaN = func(t *hotspot.Rule) bool { return true }
+	m.StatKey = func(t *hotspot.Rule) string {
+		return fmt.Sprint(t.Resource, "|", t.ControlBehavior, "|", t.ParamsMaxCapacity, "|", t.DurationInSec, "|", t.MetricType)
+	}
 	m.Valid = func(t *hotspot.Rule) bool {
 		if t.Resource == "" || t.Threshold < 0 || t.MetricType < 0 || t.ControlBehavior < 0 {
 			return false
@@ -380,12 +386,22 @@ func HotMod() *Mod[hotspot.Rule] {
 				func(x *hotspot.Rule) { x.ControlBehavior = hotspot.Reject; x.BurstCount = -1 },
 				func(x *hotspot.Rule) { x.ControlBehavior = hotspot.Throttling; x.MaxQueueingTimeMs = -1 },
 			}
+			// threshold 0: rejects every request that carries the parameter
+			zero := *a
+			zero.Threshold = 0
+			if r.Chance(1, 3) {
+				zero.ControlBehavior, zero.BurstCount = hotspot.Throttling, 0
+			}
+			if r.Chance(1, 4) {
+				zero.MetricType, zero.DurationInSec = hotspot.Concurrency, 0
+			}
+			al = append(al, &zero)
 			for i := 0; i < 2; i++ {
-				b := *a
+				b := zero // would reject the probe if it were enforced
 				bad[r.Intn(len(bad))](&b)
 				al = append(al, &b)
 			}
-			un := *a
+			un := zero
 			if r.Bool() {
 				un.ControlBehavior = 2
 			} else {
@@ -394,6 +410,23 @@ func HotMod() *Mod[hotspot.Rule] {
 			al = append(al, &un)
 		}
 		return al
+	}
+	// the probe carries two arguments and the attachment "k", none of them a specific item, so every
+	// rule of the alphabet finds its parameter; a rule rejects the first request of a value iff its
+	// threshold is 0
+	m.Blocks = func(t *hotspot.Rule) bool { return t.Threshold == 0 }
+	m.Probe = func(res string) (bool, *hotspot.Rule) {
+		Clk.AddMs(5000)
+		e, b := sentinel.Entry(res, sentinel.WithArgs(11, 11), sentinel.WithAttachments(map[interface{}]interface{}{"k": 11}))
+		if b != nil {
+			if hr, ok := b.TriggeredRule().(*hotspot.Rule); ok && b.BlockType() == base.BlockTypeHotSpotParamFlow {
+				c := *hr
+				return true, &c
+			}
+			return true, nil
+		}
+		e.Exit()
+		return false, nil
 	}
 	return m
 }
@@ -432,6 +465,12 @@ func BrkAlphabet(r *rng.R, res []string) []*cb.Rule {
 		al = append(al, er)
 		sl := &cb.Rule{Resource: rs, Strategy: cb.SlowRequestRatio, RetryTimeoutMs: 2000, MinRequestAmount: 2, StatIntervalMs: iv, MaxAllowedRtMs: uint64(r.PickI(10, 50)), Threshold: r.PickF(0.2, 0.9), ProbeNum: uint64(r.PickI(0, 3))}
 		al = append(al, sl)
+		// trips on the first failed request
+		trip := &cb.Rule{Resource: rs, Strategy: cb.ErrorCount, RetryTimeoutMs: uint32(r.PickI(1000, 5000)), MinRequestAmount: uint64(r.PickI(0, 1)), StatIntervalMs: iv, StatSlidingWindowBucketCount: a.StatSlidingWindowBucketCount, Threshold: r.PickF(0, 1, 1.5)}
+		if r.Chance(1, 3) {
+			trip.Strategy, trip.Threshold = cb.ErrorRatio, r.PickF(0, 0.5, 1)
+		}
+		al = append(al, trip)
 		bad := []func(*cb.Rule){
 			func(x *cb.Rule) { x.Resource = "" },
 			func(x *cb.Rule) { x.StatIntervalMs = 0 },
@@ -441,22 +480,43 @@ func BrkAlphabet(r *rng.R, res []string) []*cb.Rule {
 			func(x *cb.Rule) { x.Strategy = cb.ErrorRatio; x.Threshold = r.PickF(2, 1.0000001) },
 		}
 		for i := 0; i < 2; i++ {
-			b := *a
+			b := *trip // would trip on the probe if it were enforced
+			if r.Chance(1, 4) {
+				b = *a
+			}
 			bad[r.Intn(len(bad))](&b)
 			al = append(al, &b)
 		}
 		if r.Chance(1, 2) {
-			un := *a // valid, but no generator for the strategy
+			un := *trip // valid, but no generator for the strategy
 			un.Strategy = cb.Strategy(r.PickI(3, 7))
 			al = append(al, &un)
 		}
 		if r.Chance(1, 6) {
 			nan := *a
 			nan.Threshold = math.NaN()
+			nan.MinRequestAmount = 5
 			al = append(al, &nan)
 		}
 	}
 	return al
+}
+
+// BrkTrips: the breaker of the rule opens on the completion of one failed request with response
+// time 0 when nothing else was recorded (read off OnRequestComplete of the three strategies).
+func BrkTrips(t *cb.Rule) bool {
+	if t.MinRequestAmount > 1 {
+		return false
+	}
+	switch t.Strategy {
+	case cb.ErrorCount:
+		return t.Threshold < 2 // the threshold is truncated to an integer
+	case cb.ErrorRatio:
+		return true // ratio 1 >= any valid threshold
+	case cb.SlowRequestRatio:
+		return math.Abs(t.Threshold) < 1e-8 // slow ratio 0
+	}
+	return false
 }
 
 func BrkMod() *Mod[cb.Rule] {
@@ -475,6 +535,9 @@ func BrkMod() *Mod[cb.Rule] {
 	m.SetID = func(t *cb.Rule, id string) { t.Id = id }
 	m.Clone = func(t *cb.Rule) *cb.Rule { c := *t; return &c }
 	m.NoNaN = func(t *cb.Rule) bool { return !math.IsNaN(t.Threshold) }
+	m.StatKey = func(t *cb.Rule) string {
+		return fmt.Sprint(t.Resource, "|", t.Strategy, "|", t.StatIntervalMs, "|", t.StatSlidingWindowBucketCount)
+	}
 	m.Valid = BrkValid
 	m.Buildable = func(t *cb.Rule, res string) bool { return t.Resource == res && t.Strategy <= cb.ErrorCount }
 	m.SameNoID = func(a, b *cb.Rule) bool {
@@ -489,5 +552,29 @@ func BrkMod() *Mod[cb.Rule] {
 		return x == y && feq(tx, ty)
 	}
 	m.Alphabet = func(r *rng.R, res []string, ref string) []*cb.Rule { return BrkAlphabet(r, res) }
+	m.Blocks = BrkTrips
+	// the probe: one request that fails, then a second one at the same instant — it is rejected iff
+	// some breaker in force opened on the first, by the first such breaker in checking order
+	m.Probe = func(res string) (bool, *cb.Rule) {
+		Clk.AddMs(60000)
+		e, b := sentinel.Entry(res)
+		if b != nil {
+			return true, nil
+		}
+		sentinel.TraceError(e, errProbe)
+		e.Exit()
+		e, b = sentinel.Entry(res)
+		if b != nil {
+			if br, ok := b.TriggeredRule().(*cb.Rule); ok && b.BlockType() == base.BlockTypeCircuitBreaking {
+				c := *br
+				return true, &c
+			}
+			return true, nil
+		}
+		e.Exit()
+		return false, nil
+	}
 	return m
 }
+
+var errProbe = fmt.Errorf("probe failure")
